@@ -1327,8 +1327,8 @@ class CParser:
                 dim = self._parse_assignment_expression()
                 self._expect("RBRACKET")
                 return make_array_decl(dim, dim_quals)
-            times_tok = self._accept("TIMES")
-            if times_tok:
+            if self._peek_type() == "TIMES" and self._peek_type(2) == "RBRACKET":
+                times_tok = self._advance()
                 self._expect("RBRACKET")
                 dim = c_ast.ID(times_tok.value, self._tok_coord(times_tok))
                 return make_array_decl(dim, dim_quals)
@@ -1338,8 +1338,8 @@ class CParser:
             self._expect("RBRACKET")
             return make_array_decl(dim, dim_quals)
 
-        times_tok = self._accept("TIMES")
-        if times_tok:
+        if self._peek_type() == "TIMES" and self._peek_type(2) == "RBRACKET":
+            times_tok = self._advance()
             self._expect("RBRACKET")
             dim = c_ast.ID(times_tok.value, self._tok_coord(times_tok))
             return make_array_decl(dim, [])
